@@ -1,6 +1,7 @@
 """C05 - struct property (see DESIGN.md §5 C05); cases shared with the other struct properties."""
 from common import coq_options
 import structcases
+import obs
 
 ID = "C05"
 REQUIRES = ["Agree", "StructSpec", "Truth"]
@@ -21,13 +22,51 @@ TRUSTED_EXTRA = ["Python implementation of the WGSL layout rules (lib/structgen.
 
 
 def cases(rng, tier):
-    return structcases.cases(rng, tier)
+    out = structcases.cases(rng, tier)
+    # structs whose Rust layout equals the WGSL layout (16-byte-multiple leafs): these modules COMPILE with the
+    # assertions in them, so the end-to-end clause (compiled => rustc's offsets / sizes = WGSL's) is exercised
+    extra = structcases.cases(rng, "quick", nbase={"quick": 14, "search": 20, "thorough": 60}[tier], compat16=True, allow_rts=False)
+    for c in extra:
+        c["family"] = "layout_compatible"
+        c["opts"]["bm_host"] = True
+    return extra + out
+
+
+ELIGIBLE = lambda c: c["opts"].get("bm_host") and not (c["opts"].get("mv") == "Nalgebra" and c["opts"].get("encase"))
+
+
+def run_cases(plain, cases_, workdir, tag):
+    # behavioural level: the first 40 eligible modules are compiled (all real derive crates present) and probed
+    return obs.attach(plain, cases_, workdir, tag, ELIGIBLE, 40 if "search" not in tag else 0)
+
+
+def _obs(c, r):
+    if "obs" not in r or r.get("result") != "ok":
+        return "true"
+    if obs.not_compiled(r):
+        why = str((r.get("obs") or {}).get("why"))
+        c["note"] = "module rejected at compile time: " + why[:300]
+        return "true"       # rejection is the permitted outcome for this property (C01 decides which rejections are permitted)
+    if not obs.usable(r):
+        c["note"] = "no observations: %s" % str(r.get("obs"))[:300]
+        return "false"
+    ok, why = obs.check_c05(c["truth"], c["opts"], r)
+    c["note"] = why
+    return "true" if ok else "false"
+
+
+def verdict_expr_noout(c, r, ir):
+    return "[true; false; %s]" % _obs(c, r)
 
 
 def verdict_expr(c, r, ir, real):
     t = structcases.truth_term(c["truth"], c["opts"])
+    return _verdict(c, r, ir, real, t).replace("OBS", _obs(c, r))
+
+
+def _verdict(c, r, ir, real, t):
     return ('[wf %s; agree_res agree_C05 (gen %s ""%%string None %s) %s; '
-            'match %s with Ok o => C05_ok %s %s o && truth_structs_ok o %s | Panic _ => %s | _ => false end]'
+            'match %s with Ok o => C05_ok %s %s o && truth_structs_ok o %s | Panic _ => %s | _ => false end && OBS]'
             % (ir, ir, coq_options(c["opts"]), real, real, ir, coq_options(c["opts"]), t,
                "true" if c["needs_encase"] else "false"))
 
